@@ -833,6 +833,9 @@ class Crystal(object):
             T = np.around(M*t).astype(int)
             if not self.__isclose__(t, T/M): continue
             t = T/M
+            # [t, a_i, a_j] (below) only generates the lattice if T[m] divides M and every T[i]
+            mT = min([i for (i, v) in enumerate(T) if v != 0], key=lambda n: abs(T[n]))
+            if M % abs(T[mT]) != 0 or any(Ti % T[mT] != 0 for Ti in T): continue
             trans = True
             for atomlist, spinlist in zip(self.basis, spins):
                 for u, s in zip(atomlist, spinlist):
